@@ -374,6 +374,20 @@ impl VisitMut for Rw {
                         self.bump("R18");
                     }
                 }
+                // R27: pattern parameters `|(a, b)| E`  ->  `|__pK| { let (a, b) = __pK; E }`
+                {
+                    let mut lets: Vec<Stmt> = vec![];
+                    for (pi, p) in c.inputs.iter_mut().enumerate() {
+                        let (inner, ty): (syn::Pat, Option<Box<Type>>) = match &*p { syn::Pat::Type(pt) => ((*pt.pat).clone(), Some(pt.ty.clone())), other => (other.clone(), None) };
+                        if !matches!(inner, syn::Pat::Ident(_) | syn::Pat::Wild(_)) {
+                            let id = format_ident!("__p{}_{}", n, pi);
+                            lets.push(parse_quote!(let #inner = #id;));
+                            *p = match ty { Some(t) => parse_quote!(#id: #t), None => parse_quote!(#id) };
+                            self.bump("R27");
+                        }
+                    }
+                    if !lets.is_empty() { let b = &c.body; c.body = Box::new(parse_quote!({ #(#lets)* #b })); }
+                }
                 let mark = self.closure_params.len();
                 for p in c.inputs.iter() {
                     let pat = match p { syn::Pat::Type(pt) => &*pt.pat, other => other };
@@ -1164,6 +1178,10 @@ fn emit_fn(key: &str, file: &str, mut sig: syn::Signature, mut block: syn::Block
             block.stmts.insert(0, parse_quote!(let mut __self = self;));
             rw.bump("R21");
         }
+    }
+    // R18 for fn parameters: `_: T` -> `_uN: T`
+    for (pi, a) in sig.inputs.iter_mut().enumerate() {
+        if let FnArg::Typed(pt) = a { if matches!(*pt.pat, syn::Pat::Wild(_)) { let id = format_ident!("_u{}", pi); pt.pat = Box::new(parse_quote!(#id)); rw.bump("R18"); } }
     }
     // R3: impl Trait params -> named generics
     let mut k: usize = 0;
